@@ -931,6 +931,85 @@ impl<'a> Ctx<'a> {
 		}
 	}
 
+	/// Frame events that arrive wrapped in Message Splitter blocks (the generic mechanism the Gecko list uses; legal
+	/// for any event from 3.3 on, though Slippi only splits the Gecko list): the reader reassembles and dispatches
+	/// them, the game is the game of the file in which they are not wrapped.  One event, two in a row (the
+	/// accumulator starts empty each time), a whole frame, the last frame event.
+	pub fn c04_wrapped(&self, out: &mut Vec<Viol>) {
+		let l = self.db.for_version(self.built.ver[0], self.built.ver[1]);
+		if !l.gecko || self.beh.junk != 0 {
+			return;
+		}
+		let cls = shape_class(self.beh);
+		let base = match real::read_slp_noopts(&self.built.bytes) {
+			Outcome::Ok(g) => g,
+			_ => return,
+		};
+		let base_cols = cols::from_immutable(&base.frames);
+		let evs = crate::gen::file_events(self.beh);
+		let frame_ev: Vec<usize> = evs.iter().enumerate().filter(|(i, e)| ["fs", "pre", "post", "item", "fe"].contains(&e.k.as_str()) && *i < self.built.ev_bufs.len()).map(|(i, _)| i).collect();
+		if frame_ev.is_empty() {
+			return;
+		}
+		let mut sets: Vec<(String, Vec<usize>)> = vec![];
+		for k in frame_ev.iter().take(5) {
+			sets.push((format!("one#{}", k), vec![*k]));
+		}
+		sets.push(("last".into(), vec![*frame_ev.last().unwrap()]));
+		if frame_ev.len() >= 2 {
+			sets.push(("two_in_a_row".into(), vec![frame_ev[0], frame_ev[1]]));
+		}
+		let first_id = evs[frame_ev[0]].id;
+		sets.push(("whole_frame".into(), frame_ev.iter().cloned().take_while(|k| evs[*k].id == first_id).collect()));
+		let b = &self.built;
+		for (name, ks) in sets {
+			// rebuild the raw element: payload table (with a Message Splitter entry), Game Start, the events
+			let tbl_start = b.raw_start;
+			let gs_cmd = b.events_start - 1 - b.start_block.len();
+			let mut table = b.bytes[tbl_start..gs_cmd].to_vec();
+			if !b.bytes[tbl_start + 2..gs_cmd].chunks(3).any(|c| c[0] == 0x10) {
+				table.extend_from_slice(&[0x10, 0x02, 0x04]);
+				table[1] += 3;
+			}
+			let mut raw = table;
+			raw.extend_from_slice(&b.bytes[gs_cmd..b.events_start]);
+			for (i, ev) in b.ev_bufs.iter().enumerate() {
+				if ks.contains(&i) {
+					let payload = &ev[1..];
+					let n = (payload.len() + 511) / 512;
+					for j in 0..n.max(1) {
+						let chunk = &payload[(j * 512).min(payload.len())..((j + 1) * 512).min(payload.len())];
+						let mut blk = vec![0x10u8];
+						blk.extend_from_slice(chunk);
+						blk.resize(513, 0xEE);
+						blk.extend_from_slice(&(chunk.len() as u16).to_be_bytes());
+						blk.push(ev[0]);
+						blk.push((j + 1 == n.max(1)) as u8);
+						raw.extend_from_slice(&blk);
+					}
+				} else {
+					raw.extend_from_slice(ev);
+				}
+			}
+			let mut bytes = b.bytes[..b.raw_start].to_vec();
+			bytes[11..15].copy_from_slice(&(raw.len() as u32).to_be_bytes());
+			bytes.extend_from_slice(&raw);
+			bytes.extend_from_slice(&b.bytes[b.raw_end..]);
+			match real::read_slp_noopts(&bytes) {
+				Outcome::Ok(g) => {
+					let mut diff = same_cols(&base_cols, &cols::from_immutable(&g.frames), true);
+					if diff.is_none() && (g.gecko_codes != base.gecko_codes || g.end != base.end || g.metadata != base.metadata) {
+						diff = Some("gecko codes / end / metadata differ".into());
+					}
+					if let Some(d) = diff {
+						out.push(viol("wrapped_events", &cls, "mismatch", format!("{}: frame events wrapped in Message Splitter blocks: {}", name, d)));
+					}
+				}
+				o => out.push(viol("wrapped_events", &cls, o.kind(), format!("{}: {}", name, o.detail()))),
+			}
+		}
+	}
+
 	/// C08 (second half): a replay of a newer version whose known events carry extra trailing bytes
 	/// parses, and every known field has the value it would have without the extra bytes.
 	pub fn c08_newer(&self, out: &mut Vec<Viol>) {
